@@ -39,7 +39,8 @@ pub fn c14_strategy() -> BoxedStrategy<C14Case> {
         prop_oneof![bytes_n(8), bytes_n(12)],
         prop_oneof![1 => Just(None), 8 => counter_mix().prop_map(Some)],
         prop_oneof![1 => Just(None), 3 => any::<u64>().prop_map(Some), 1 => Just(Some(u64::MAX)), 1 => Just(Some(0))],
-        0u32..=10,
+        // "any number of double rounds": mostly the 0..=10 of the standard variants, sometimes far more
+        prop_oneof![12 => 0u32..=10, 2 => 11u32..=40, 1 => Just(16u32), 1 => Just(32u32), 1 => 41u32..=300],
         1u8..=3,
     )
         .prop_map(|(key, nonce, counter, stream, drounds, reps)| C14Case { key, nonce, counter, stream, drounds, reps })
@@ -70,7 +71,12 @@ pub fn c14_check(c: &C14Case, info: &mut CaseInfo) -> Result<(), Fail> {
     if let Some(x) = c.stream {
         sid = x;
     }
-    info.label(format!("drounds={}", c.drounds));
+    if c.drounds <= 10 {
+        info.label(format!("drounds={}", c.drounds));
+    } else {
+        info.label("more than 10 double rounds");
+        info.label_if(c.drounds >= 16, "16 or more double rounds");
+    }
     for rep in 0..c.reps {
         let lo = ctr as u32;
         info.label_if(lo > 0xffff_fffc, "low-word carry inside refill4");
@@ -348,6 +354,7 @@ pub fn run_c14(ctx: &mut Ctx) {
     ctx.required_classes.push("low-word carry inside refill4".into());
     ctx.required_classes.push("counter wraps 2^64".into());
     ctx.required_classes.push("drounds=0".into());
+    ctx.required_classes.push("more than 10 double rounds".into());
 }
 
 pub fn run_c15(ctx: &mut Ctx) {
